@@ -68,4 +68,12 @@ META.update({
         technique="property-based testing (rapid-generated randomised concurrent trials) with a race-agnostic consistency oracle over (result, listener count, cancellation, elapsed time)",
     ),
 })
+META.update({
+    "C09": dict(
+        text="Property testing of hedged executions with the schedule owned by the harness: generated hedge counts, per-hedge delays (incl. 0 and 1 h), cancel conditions, per-attempt outcomes and placements; in gated mode every attempt parks on a harness channel and attempts are released in a generated permutation, so completion order is an input and each step has an exact expectation (accepted result returns the call while others are still parked; unaccepted ones do not); in auto mode attempts race with the hedge timers and a race-agnostic oracle judges the recorded log (bounded attempts, spacing lower bounds, result produced by a finished attempt, unaccepted results only after all attempts finished, losers cancelled and winner not at return, nothing started after return). Sampling, not proof.",
+        design_ref="DESIGN.md section 6, C09",
+        note="Attempts identified by entry order; lower-bound timing only; a cancel-matching result that loses the hand-off race to the final result is accepted when all attempts have finished (L8); real schedules inside the library are sampled.",
+        technique="property-based testing (rapid): harness-controlled completion orders (gated attempts + generated DelayFunc) with a step oracle, plus randomised racing trials with a log-invariant oracle",
+    ),
+})
 NOT_APPLICABLE = [dict(property_id=p, reason="check not built yet in this session (work in progress; DESIGN.md section 6 describes the planned property-based check)") for p in ALL if p not in META]
